@@ -214,14 +214,13 @@ def harness(ctx, exe, step_bytes_expected=None):
                       dict(ops=ops[:ops.index(opl) + 1] if opl in ops else ops, leaked_blocks=[b[1] for b in bad_blocks][:10], how="drv_api level 1: feed ops, read the `| leak` part"))
     if theta_total > 0:
         per_sign = [m[2] for m in model_ops if m[0] == "sign"]
-        ctx.violation(K_THETA, "every theta chain computation mallocs theta_chain_t.steps and nothing frees it: live heap grows by ~%.1f MB per signature (measured %s bytes over %d signatures; theorem live_unbounded_current)"
-                      % (sum(per_sign) / max(1, len(per_sign)) / 1e6, sum(per_sign), len(per_sign)),
-                      dict(ops=ops, leaked_bytes_per_op=[(m[0], m[2]) for m in model_ops], chain_lengths=[(m[0], m[1]) for m in model_ops]))
-    # model comparison: live malloc bytes predicted by the ledger model = object blocks + sum of (n-1)*step
-    # (checked arithmetically here; the Lean theorem theta_bytes_current gives exactly this formula)
-    pred = sum((n - 1) * step for m in model_ops for n in m[1])
-    ctx.obligation("ledger model: leaked bytes = Σ (n−1)·sizeof(theta_isogeny_t) over the observed chains, no other malloc block leaks",
-                   pred == theta_total and not bad_blocks, "pred=%d measured=%d other=%s" % (pred, theta_total, bad_blocks[:3]))
+        ctx.violation(K_THETA, "a theta chain's `steps` array (malloc in theta_chain_comput_*) is still allocated when keygen / sign / verify return: a theta_chain_finalize is missing; live heap grows with "
+                      "the number of operations (%s bytes over %d signatures; model of a reverted fix: live_unbounded_current)" % (sum(per_sign), len(per_sign)),
+                      dict(ops=ops, leaked_bytes_per_op=[(m[0], m[2]) for m in model_ops], chain_lengths=[(m[0], m[1]) for m in model_ops],
+                           how="drv_api level 1: feed the ops, read the `| leak` part of each keygen/sign/verify line"))
+    # model of the current code (leaky = false, theorem live_bounded): no malloc block allocated during an operation survives it
+    ctx.obligation("ledger model of the current code: no heap block allocated by keygen / sign / verify survives the call (live_bounded)",
+                   theta_total == 0 and not bad_blocks, "theta=%d other=%s" % (theta_total, bad_blocks[:3]))
     # final checkpoint after finalize: only leaked theta blocks may remain
     if live is not None and live[0] != theta_total:
         ctx.violation("c19:leak:objects-not-released-by-finalize", "after finalize of every object the live malloc bytes differ from the leaked theta blocks",
@@ -234,6 +233,41 @@ def harness(ctx, exe, step_bytes_expected=None):
         ctx.violation(K_GMP_SIGN, "GMP integers allocated below protocols_sign are never cleared: +%d live GMP blocks per signature on the same objects (after fix 32f0c08: 13 at level 1 — ibz_t tmp in endomorphism_application_even_basis, disc in sampling_random_ideal_O0, two_pow re-initialised in id2iso_kernel_dlogs_to_ideal_two, prod_bad_primes in find_uv; repair: notes/patches/C19-fix-gmp-finalize.diff)"
                       % (sign_cp[-1] - sign_cp[-2]), dict(ops=ops, gmp_live_blocks_after_each_sign=sign_cp))
     ctx.coverage["gmp_live_blocks_after_each_sign"] = sign_cp
+
+
+def variants_growth(ctx):
+    """every protocol variant (sqisigndim2, heuristic, hd) and level: live malloc bytes / blocks and GMP blocks after k rounds of
+    keygen + sign (+ verify) on the same objects must not depend on k, and must be 0 after finalizing the objects"""
+    W = list(WRAP)
+    plan = [(1, ["1", "3"])] if ctx.quick else [(1, ["1", "5", "20"]), (3, ["1", "5", "20"]), (5, ["1", "5", "20"])]
+    b = ctx.build_repo("ref")
+    allv = ("sqisigndim2_lvl", "sqisigndim2_heuristic_lvl", "sqisignhd_lvl")
+    res = {}
+    for variant, hdr, hv in (("sqisigndim2", "<sqisigndim2.h>", 1), ("sqisigndim2_heuristic", "<sqisigndim2_heuristic.h>", 1), ("sqisignhd", "<sqisignhd.h>", 0)):
+        for lvl, ks in plan:
+            orig = ctx.libs
+            ctx.libs = lambda bb, ll, common="test", _o=orig, _v=variant: [x for x in _o(bb, ll, common)
+                                                                          if not any(("libsqisign_" + a) in os.path.basename(x) for a in allv) or os.path.basename(x).startswith("libsqisign_%s_lvl" % _v)]
+            try:
+                exe = ctx.cc_harness(os.path.join(HARNESS, "drv_leak.c"), os.path.join(ctx.tmp, "drv_leak_%s_%d" % (variant, lvl)), lvl, build=b, variant=variant,
+                                     extra=W + ["-DVARIANT_HEADER=%s" % hdr, "-DHAS_VERIF=%d" % hv])
+            finally:
+                ctx.libs = orig
+            rc, out, err = vlib.run_c([exe] + ks, [], timeout=3000)
+            ctx.case("growth:%s:L%d" % (variant, lvl))
+            rows = [o.split() for o in out]
+            nums = [tuple(int(x) for x in r[1:4]) for r in rows if r and r[0] != "end"]
+            end = [tuple(int(x) for x in r[1:4]) for r in rows if r and r[0] == "end"]
+            res["%s:L%d" % (variant, lvl)] = dict(after_k=dict(zip(ks, nums)), end=end[:1])
+            rep = dict(variant=variant, level=lvl, rounds=ks, output=out, stderr=err[-500:],
+                       how="compile tools/harness/drv_leak.c against lib %s level %d with -Wl,--wrap=malloc,free,calloc,realloc; run `drv_leak %s`" % (variant, lvl, " ".join(ks)))
+            if rc != 0 or len(nums) != len(ks) or not end:
+                ctx.violation("c19:growth-run-crash:%s:L%d" % (variant, lvl), "keygen/sign/verify loop crashed", rep); continue
+            if any(n != nums[0] for n in nums):
+                ctx.violation("c19:live-memory-grows:%s" % variant, "live heap (malloc bytes, malloc blocks, GMP blocks) after k operations on the same objects depends on k: %s" % dict(zip(ks, nums)), rep)
+            if end[0] != (0, 0, 0):
+                ctx.violation("c19:memory-left-after-finalize:%s" % variant, "heap blocks remain allocated after every object was finalised: %s" % (end[0],), rep)
+    ctx.coverage["variants_growth"] = res
 
 
 def sanitizer_run(ctx):
@@ -288,7 +322,7 @@ def run(ctx):
                        not [v for v in ctx.violations[nb:] if v["key"].startswith("c19:")], "")
     if not ok and new_static:
         # a dependence on the new static was observed by the harness -> attach the object to that violation; else report it
-        dep = [v for v in ctx.violations if v["key"].startswith(("c19:output", "c19:nondet", "c19:verify", "c19:verdict", "leak:retry-path", "c19:leak"))]
+        dep = [v for v in ctx.violations if v["key"].startswith(("c19:output", "c19:nondet", "c19:verify", "c19:verdict", "leak:", "c19:leak", "c19:live", "c19:memory"))]
         for v in ctx.violations:
             if v["key"].startswith("lake:"):
                 v["replay"]["new_static_objects"] = new_static
@@ -297,6 +331,9 @@ def run(ctx):
                     dep[0]["replay"]["broken_obligations"] = ["globals_are_audited"]
                     dep[0]["replay"]["new_static_objects"] = new_static
                 break
+    nbv = len(ctx.violations)
+    variants_growth(ctx)
+    ctx.obligation("live heap independent of the number of operations, 0 after finalize (3 variants%s)" % ("" if ctx.quick else " x 3 levels, k = 1, 5, 20"), len(ctx.violations) == nbv, "")
     sanitizer_run(ctx)
     if not ctx.quick:
         vg = os.path.join(ctx.tmp, "drv_api_l1")
